@@ -28,6 +28,11 @@ def word(rnd):
     w = "".join(rnd.choice(SYLLABLES) for _ in range(rnd.randint(1, 2)))
     if rnd.random() < 0.8:
         w = w[0].upper() + w[1:]
+    if rnd.random() < 0.12:
+        # a camel-case compound (`MilesPer_Hour`): its upper-snake-case
+        # constant separates the sub-words (MILES_PER_HOUR)
+        v = "".join(rnd.choice(SYLLABLES) for _ in range(rnd.randint(1, 2)))
+        w = w + v[0].upper() + v[1:]
     return w
 
 
@@ -282,7 +287,12 @@ def emit_def(d, order=None, vis="pub "):
 
 
 def const_name(ident):
-    return "_".join(w.upper() for w in ident.split("_") if w)
+    import re
+    parts = []
+    for w in ident.split("_"):
+        if w:
+            parts += re.findall(r"[A-Z]?[a-z]+", w)
+    return "_".join(x.upper() for x in parts)
 
 
 def variant_name(ident):
